@@ -751,6 +751,12 @@ class Executor(object):
             if a.region != b.region: same = False
             if pred == 'eq': return 1 if same else 0
             if pred == 'ne': return 0 if same else 1
+            if a.region == b.region and a.region is not None:
+                # ordering of two pointers into one object = ordering of their offsets
+                x, y = a.off, b.off
+                r = {'ugt': lambda: x > y, 'uge': lambda: x >= y, 'ult': lambda: x < y, 'ule': lambda: x <= y,
+                     'sgt': lambda: x > y, 'sge': lambda: x >= y, 'slt': lambda: x < y, 'sle': lambda: x <= y}[pred]()
+                return (1 if r else 0) if isinstance(r, bool) else r
             raise Unsupported('pointer comparison ' + pred)
         def norm(v):
             if z3.is_expr(v) and z3.is_bool(v): return z3.If(v, 1, 0)
@@ -771,6 +777,10 @@ class Executor(object):
         def norm(v):
             if z3.is_expr(v) and z3.is_bool(v): return z3.If(v, 1, 0)
             return v
+        if isinstance(a, Ptr) and isinstance(b, Ptr) and op == 'sub':
+            # pointer difference (after ptrtoint) inside one object
+            if a.region != b.region or a.region is None: raise Unsupported('difference of pointers into different objects')
+            return simp_int(a.off - b.off)
         a, b = norm(a), norm(b)
         bits = ty.bits
         if op == 'add': return self.wrap(st, a + b, bits)
